@@ -114,6 +114,42 @@ def shaped():
     return res
 
 
+def gadget_unions(seed=1, max_n=8, triples=70):
+    """disjoint unions of two or three small gadgets (an even cycle, a choice with a self-attacker, a floating argument behind a choice,
+    chains, an odd cycle, a self-attacker, an isolated argument, ...): frameworks with several components on which the semantics disagree
+    (ideal vs. skeptical preferred, stable missing in one component, ...), for list queries and the composition over components"""
+    g = [cycle(2),
+         af(2, [(1, 2), (2, 1), (2, 2)], "choice_selfb"),
+         af(4, [(1, 2), (2, 1), (1, 3), (2, 3), (3, 4)], "floating"),
+         af(5, [(1, 2), (2, 1), (1, 3), (2, 3), (3, 4), (4, 5)], "floating_out"),
+         af(1, [(1, 1)], "self"),
+         chain(2), chain(3), cycle(3),
+         af(1, [], "iso"),
+         af(3, [(1, 2), (2, 1), (1, 3)], "choice_hits"),
+         af(3, [(1, 2), (2, 1), (2, 3), (3, 3)], "sst_choice")]
+    res = []
+    for i in range(len(g)):
+        for j in range(i, len(g)):
+            u = union(g[i], g[j])
+            if u["n"] <= max_n:
+                res.append(u)
+    rng = random.Random(seed)
+    seen = set()
+    tries = 0
+    while len(seen) < triples and tries < 2000:
+        tries += 1
+        t = tuple(sorted(rng.sample(range(len(g)), 3)))
+        if t in seen or sum(g[k]["n"] for k in t) > max_n:
+            continue
+        seen.add(t)
+        u = union(union(g[t[0]], g[t[1]]), g[t[2]])
+        # now and then one attack between two of the parts (the parts merge into one component)
+        if rng.random() < 0.3:
+            u = af(u["n"], [tuple(p) for p in u["att"]] + [(rng.randint(1, u["n"]), rng.randint(1, u["n"]))], u["tag"] + "+link")
+        res.append(u)
+    return res
+
+
 def rand_af(rng, n, p_att, p_self=0.1):
     att = []
     for a in range(1, n + 1):
@@ -285,4 +321,114 @@ def mid_afs(seed, count, nlo=10, nhi=13):
             x = rng.randint(1, n)
             att.add((x, x))
         res.append(af(n, att, "mid%d" % n))
+    return res
+
+
+def grounded_reduct(a):
+    """(grounded extension, defeated arguments, components of the framework restricted to the undecided arguments) -- the same computation
+    as Meta!GroundedFast / Reduct, used here only to SELECT frameworks the judge can afford (the judge recomputes everything itself)"""
+    n = a["n"]
+    atk = {i: set() for i in range(1, n + 1)}
+    out = {i: set() for i in range(1, n + 1)}
+    for x, y in a["att"]:
+        atk[y].add(x)
+        out[x].add(y)
+    g, dead = set(), set()
+    changed = True
+    while changed:
+        changed = False
+        for i in range(1, n + 1):
+            if i not in g and i not in dead and atk[i] <= dead:
+                g.add(i)
+                dead |= out[i]
+                changed = True
+    und = [i for i in range(1, n + 1) if i not in g and i not in dead]
+    parent = {i: i for i in und}
+
+    def find(x):
+        while parent[x] != x:
+            parent[x] = parent[parent[x]]
+            x = parent[x]
+        return x
+    us = set(und)
+    for x, y in a["att"]:
+        if x in us and y in us:
+            parent[find(x)] = find(y)
+    comps = {}
+    for i in und:
+        comps.setdefault(find(i), []).append(i)
+    return g, dead, list(comps.values())
+
+
+def gadget_soups(seed, count, nlo, nhi):
+    """many small gadgets (even / odd cycles, choices with floating arguments, chains) side by side, a few unattacked sources that
+    defeat some of their members, a few links: a non-trivial grounded extension AND a non-trivial undecided part"""
+    rng = random.Random(seed)
+    g = [cycle(2), cycle(3), cycle(4), cycle(5), chain(3), af(2, [(1, 2), (2, 1), (2, 2)], "cs"),
+         af(4, [(1, 2), (2, 1), (1, 3), (2, 3), (3, 4)], "fl"), af(3, [(1, 2), (2, 1), (2, 3), (3, 3)], "ss"),
+         af(5, [(1, 2), (2, 1), (2, 3), (3, 4), (4, 5), (5, 3)], "eo"), af(1, [(1, 1)], "self")]
+    res = []
+    for _ in range(count):
+        n_target = rng.randint(nlo, nhi)
+        a = af(0, [], "soup")
+        while a["n"] < n_target:
+            a = union(a, rng.choice(g), "soup")
+        att = [tuple(p) for p in a["att"]]
+        n = a["n"]
+        for _ in range(rng.randint(1, max(1, n // 8))):      # unattacked sources
+            n += 1
+            for _ in range(rng.randint(1, 3)):
+                att.append((n, rng.randint(1, a["n"])))
+        for _ in range(rng.randint(0, n // 12)):               # links between gadgets
+            att.append((rng.randint(1, a["n"]), rng.randint(1, a["n"])))
+        res.append(af(n, att, "soup"))
+    return res
+
+
+def reducible_large(seed, count, nlo, nhi, maxc=9):
+    """frameworks of nlo..nhi arguments (sparse random, layered, unions of cycles) whose undecided part -- after the grounded extension and what
+    it defeats are set aside -- has components of at most maxc arguments: judged exactly by TLC through the grounded reduct"""
+    res = []
+    k = 0
+    while len(res) < count and k < 60:
+        cands = large_afs(seed * 1000 + k, count, nlo, nhi) + gadget_soups(seed * 1000 + k, count, nlo, nhi)
+        random.Random(seed + k).shuffle(cands)
+        for a in cands:
+            g, dead, comps = grounded_reduct(a)
+            if all(len(c) <= maxc for c in comps) and len(comps) <= 12 and (g or comps):
+                a["tag"] = a["tag"] + "_reducible"
+                res.append(a)
+                if len(res) >= count:
+                    break
+        k += 1
+    return res
+
+
+def big_funnels():
+    """one argument t whose attackers b1..bk are each attacked by d shared unattacked defenders (the auxiliary-free encoding expands d^k
+    clauses for t: 2^16, 2^17, 3^10, 3^11 -- around and above 65 536), in variants where one more attacker, declared last, is left
+    undefended / defended by a choice / self-attacking.  The grounded extension decides almost everything: judged through the reduct."""
+    res = []
+    for k, d in ((16, 2), (17, 2), (10, 3), (11, 3)):
+        for variant in ("plain", "late_undefended", "late_choice", "late_selfatt"):
+            t = 1
+            defenders = list(range(2, 2 + d))
+            bs = list(range(2 + d, 2 + d + k))
+            att = [(b, t) for b in bs] + [(c, b) for c in defenders for b in bs]
+            n = 1 + d + k
+            if variant != "plain":
+                last = n + 1          # the attacker with the largest label: its attack on t comes last in every presentation
+                att.append((last, t))
+                n += 1
+                if variant == "late_undefended":
+                    s1 = n + 1
+                    att += [(s1, s1), (s1, last)]
+                    n += 1
+                elif variant == "late_choice":
+                    x, y = n + 1, n + 2
+                    att += [(x, y), (y, x), (x, last)]
+                    n += 2
+                else:
+                    att.append((last, last))
+            res.append(af(n, att, "bigfunnel_%d_%d_%s" % (k, d, variant)))
     return res
